@@ -9,6 +9,9 @@
 //   Q <method idx> <path hex> <query k=v,.. hex|-> <cookies n=v,.. hex|-> <body hex> [h=<name hex>:<value hex>,...]
 //        h: registered (typed) headers, made by the header registry from the name, filled with parse(value) and given
 //        to the builder; the handler reports each of them as its typed object writes it
+//   V <big MB> <file kB> <gap ms>   a client with a 4 kB receive buffer asks for /big and does not read; after <gap> ms it asks for /file
+//        (Http::serveFile) and then for /t1 on the same connection; then it reads everything: three well-formed responses in order
+//     -> V n=<responses read> ok=<1 if each is 200 with exactly its own body> lens=<body lengths>
 // Output (head = status/request line first, the other header lines sorted):
 //   P emitted <bytes hex> size=<getResponseSize>  | P rejected received=<bytes received>
 //   T <bytes hex>      Q <bytes hex> parsed=<what the real server handler saw>
@@ -95,6 +98,16 @@ public:
     void onRequest(const Http::Request& req, Http::ResponseWriter response) override
     {
         Plan& p = *g_plan;
+        if (p.mode == "V")
+        {
+            if (req.resource() == "/big")
+                response.send(Http::Code::Ok, std::string(static_cast<size_t>(p.code) << 20, 'B'));
+            else if (req.resource() == "/file")
+                Http::serveFile(response, p.body);
+            else
+                response.send(Http::Code::Ok, "tail-" + req.resource().substr(1));
+            return;
+        }
         if (p.mode == "Q")
         {
             std::ostringstream os;
@@ -276,6 +289,19 @@ static std::string handle(const std::string& line)
                 cur.push_back(c);
         }
     }
+    else if (t[0] == "V" && t.size() == 4)
+    {
+        plan.code = atoi(t[1].c_str()); // MB of /big
+        cap       = (static_cast<size_t>(plan.code) << 20) + 4096;
+        char name[] = "/tmp/pv_wire_XXXXXX";
+        int ffd     = mkstemp(name);
+        std::string block(1024, 'F');
+        for (int i = 0; i < atoi(t[2].c_str()); ++i)
+            if (::write(ffd, block.data(), block.size()) != static_cast<ssize_t>(block.size()))
+                return "BADCASE cannot write the file";
+        ::close(ffd);
+        plan.body = name;
+    }
     else if (!(t[0] == "Q" && (t.size() == 6 || t.size() == 7)))
         return "BADCASE";
 
@@ -286,7 +312,61 @@ static std::string handle(const std::string& line)
     uint16_t port = server.getPort();
     std::string result;
 
-    if (t[0] == "Q")
+    if (t[0] == "V")
+    {
+        int c     = ::socket(AF_INET, SOCK_STREAM, 0);
+        int small = 4096;
+        setsockopt(c, SOL_SOCKET, SO_RCVBUF, &small, sizeof small);
+        sockaddr_in sa {};
+        sa.sin_family      = AF_INET;
+        sa.sin_addr.s_addr = htonl(INADDR_LOOPBACK);
+        sa.sin_port        = htons(port);
+        if (::connect(c, reinterpret_cast<sockaddr*>(&sa), sizeof sa) != 0)
+            return "BADCASE connect";
+        int gap = atoi(t[3].c_str());
+        pv::send_all(c, "GET /big HTTP/1.1\r\nHost: x\r\n\r\n");
+        std::this_thread::sleep_for(std::chrono::milliseconds(gap));
+        pv::send_all(c, "GET /file HTTP/1.1\r\nHost: x\r\n\r\n");
+        std::this_thread::sleep_for(std::chrono::milliseconds(60));
+        pv::send_all(c, "GET /t1 HTTP/1.1\r\nHost: x\r\n\r\n");
+        std::this_thread::sleep_for(std::chrono::milliseconds(60));
+        // now read: three responses, one after the other
+        std::string all;
+        size_t want[3] = { static_cast<size_t>(plan.code) << 20, static_cast<size_t>(atoi(t[2].c_str())) * 1024, 7 };
+        char fill[3]   = { 'B', 'F', 0 };
+        int n = 0, ok = 1;
+        std::string lens;
+        size_t pos = 0;
+        for (int k = 0; k < 3; ++k)
+        {
+            auto complete = [&](const std::string& b) {
+                auto he = b.find("\r\n\r\n", pos);
+                if (he == std::string::npos)
+                    return false;
+                auto cl = b.find("Content-Length: ", pos);
+                if (cl == std::string::npos || cl > he)
+                    return true;
+                return b.size() >= he + 4 + static_cast<size_t>(atoll(b.c_str() + cl + 16));
+            };
+            if (!pv::read_until(c, all, complete, 8000))
+                break;
+            auto he = all.find("\r\n\r\n", pos);
+            auto cl = all.find("Content-Length: ", pos);
+            size_t len = (cl == std::string::npos || cl > he) ? 0 : static_cast<size_t>(atoll(all.c_str() + cl + 16));
+            std::string body = all.substr(he + 4, len);
+            ++n;
+            lens += (k ? "," : "") + std::to_string(len);
+            if (all.compare(pos, 12, "HTTP/1.1 200") != 0 || len != want[k])
+                ok = 0;
+            else if (fill[k] ? body.find_first_not_of(fill[k]) != std::string::npos : body != "tail-t1")
+                ok = 0;
+            pos = he + 4 + len;
+        }
+        ::close(c);
+        ::unlink(plan.body.c_str());
+        result = "V n=" + std::to_string(n) + " ok=" + std::to_string(ok) + " lens=" + (lens.empty() ? "-" : lens);
+    }
+    else if (t[0] == "Q")
     {
         // a raw capture proxy in front of the real server: records the client's bytes, forwards them
         int lfd = ::socket(AF_INET, SOCK_STREAM, 0);
